@@ -288,6 +288,48 @@ theorem generated_wrappers : SqiGen.BasisSearch.wrapperCalls = ["ec_curve_to_poi
     "ec_curve_to_point_2f_not_above_montgomery_from_hint", "ec_curve_to_point_2f_above_montgomery_from_hint"] := wrappers_ok
 end Generated
 
+/-! The individual step equalities "generated routine = model routine" (proved in `SqiProofs/BasisGen.lean`), restated here under
+the same names so that a change of the C control flow is reported as the failed obligation it breaks. -/
+section GeneratedSteps
+open SqiGen.BasisSearch
+variable {Fp : Type}
+
+theorem na_inner1 (E : Env Fp) (oc : Nat → Fp × Fp → Bool) (tab : List (Fp × Fp)) (n : Nat) (s : St Fp) :
+    notAbove_loop1 E oc tab n s = SqiProofs.BasisGen.rmap (fun r => { s with hint := r.1, x := r.2 }) (naInner E n s.hint s.x) :=
+  SqiProofs.BasisGen.na_inner1 E oc tab n s
+
+theorem na_inner2 (E : Env Fp) (oc : Nat → Fp × Fp → Bool) (tab : List (Fp × Fp)) (n : Nat) (s : St Fp) :
+    notAbove_loop2 E oc tab n s = SqiProofs.BasisGen.rmap (fun r => { s with hint := r.1, x := r.2 }) (naInner E n s.hint s.x) :=
+  SqiProofs.BasisGen.na_inner2 E oc tab n s
+
+theorem na_outer (E : Env Fp) (oc : Nat → Fp × Fp → Bool) (tab : List (Fp × Fp)) (n : Nat) (s : St Fp) :
+    notAbove_loop0 E oc tab n s = SqiProofs.BasisGen.rmap (fun r => { s with hint := r.1, x := r.2 }) (naOuter E oc tab n s.hint s.x) :=
+  SqiProofs.BasisGen.na_outer E oc tab n s
+
+theorem ab_inner1 (E : Env Fp) (oc : Nat → Fp × Fp → Bool) (mulAlpha : Fp × Fp → Fp × Fp) (tab : List (Fp × Fp)) (n : Nat) (s : St Fp) :
+    above_loop1 E oc mulAlpha tab n s =
+      SqiProofs.BasisGen.rmap (fun r => { s with hint := r.1, z1 := r.2.1, z2 := r.2.2 }) (abInner E n s.hint s.z1 s.z2) :=
+  SqiProofs.BasisGen.ab_inner1 E oc mulAlpha tab n s
+
+theorem ab_inner2 (E : Env Fp) (oc : Nat → Fp × Fp → Bool) (mulAlpha : Fp × Fp → Fp × Fp) (tab : List (Fp × Fp)) (n : Nat) (s : St Fp) :
+    above_loop2 E oc mulAlpha tab n s =
+      SqiProofs.BasisGen.rmap (fun r => { s with hint := r.1, z1 := r.2.1, z2 := r.2.2 }) (abInner E n s.hint s.z1 s.z2) :=
+  SqiProofs.BasisGen.ab_inner2 E oc mulAlpha tab n s
+
+theorem ab_outer (E : Env Fp) (oc : Nat → Fp × Fp → Bool) (mulAlpha : Fp × Fp → Fp × Fp) (tab : List (Fp × Fp)) (n : Nat) (s : St Fp) :
+    SqiProofs.BasisGen.rmap (fun s' : St Fp => (s'.hint, s'.x)) (above_loop0 E oc mulAlpha tab n s) =
+      abOuter E oc mulAlpha tab n s.hint s.z1 s.z2 :=
+  SqiProofs.BasisGen.ab_outer E oc mulAlpha tab n s
+
+theorem na_from_hint (E : Env Fp) (tab : List (Fp × Fp)) (hint : Int) :
+    notAboveFromHint E tab hint = naFromHint E SqiProofs.BasisGen.guard20 tab hint :=
+  SqiProofs.BasisGen.na_from_hint E tab hint
+
+theorem ab_from_hint (E : Env Fp) (mulAlpha : Fp × Fp → Fp × Fp) (tab : List (Fp × Fp)) (hint : Int) :
+    aboveFromHint E mulAlpha tab hint = abFromHint E SqiProofs.BasisGen.guard20 mulAlpha tab hint :=
+  SqiProofs.BasisGen.ab_from_hint E mulAlpha tab hint
+end GeneratedSteps
+
 /-! ## (iii) order / independence from named 2-descent hypotheses (PARTIAL) -/
 section Torsion
 variable {G : Type} [AddCommGroup G]
